@@ -92,6 +92,11 @@ pub fn for_each_expr(opts: &SpaceOpts, f: &(dyn Fn(&Expr) + Sync)) -> u64 {
         tasks.par_iter().for_each(|prefix| {
             g.for_each_with_prefix(size, prefix, &mut |s: &Seq| visit(s, "shape"));
         });
+        if size == g.max_size {
+            (0..g.top_item_chunks()).into_par_iter().for_each(|c| {
+                g.for_each_top_item(c, &mut |s: &Seq| visit(s, "shape"));
+            });
+        }
     }
     // substitution pass
     let smax = opts.subst_single.max(opts.subst_pairs);
@@ -118,6 +123,11 @@ pub fn for_each_expr(opts: &SpaceOpts, f: &(dyn Fn(&Expr) + Sync)) -> u64 {
             tasks.par_iter().for_each(|prefix| {
                 g2.for_each_with_prefix(size, prefix, &mut |s: &Seq| visit(s, "reduced"));
             });
+            if size == g2.max_size {
+                (0..g2.top_item_chunks()).into_par_iter().for_each(|c| {
+                    g2.for_each_top_item(c, &mut |s: &Seq| visit(s, "reduced"));
+                });
+            }
         }
     }
     // position family
